@@ -201,6 +201,11 @@ RECIPES = [
     ("C18", "break", ["C18-R3"], "pyyeti/nastran/n2p.py", "    pvi[pvi == i.size] -= 1\n    pv = i[pvi]\n\n    chk", "    pv = i[pvi]\n\n    chk", "clamp deleted"),
     ("C18", "break", ["C18-R3"], "pyyeti/locate.py", "    out_dtype = np.result_type(haystack.dtype, needles.dtype)", "    out_dtype = haystack.dtype", "lossy key type"),
     ("C18", "break", ["C18-R4"], "pyyeti/nastran/n2p.py", "    if (edof[:, 1] > 6).any():\n        raise ValueError(\"found DOF > 6?\")\n", "", "expanddof guard"),
+    ("C06", "break", ["C06-R4"], "pyyeti/cb.py", "        v2[z_m, :] = psi @ v\n", "        v2[z_m, :] = -(psi @ v)\n", "expansion of massless rows with the wrong sign"),
+    ("C06", "break", ["C06-R4"], "pyyeti/cb.py", "        k = k[xx] + k[xz] @ psi\n", "        k = k[xx] - k[xz] @ psi\n", "reduced stiffness is not the Schur complement"),
+    ("C06", "break", ["C06-R4"], "pyyeti/cb.py", "        psi = linalg.solve(-k[zz], k[zx])\n        k = k[xx] + k[xz] @ psi\n        m = m[xx]", "        psi = linalg.solve(-k[zz], k[zx])\n        k = k[xx] + k[xz] @ psi\n        m = m[zz]", "reduced mass partition"),
+    ("C06", "break", ["C06-R4"], "pyyeti/cb.py", "        v2[z, :] = 0.0\n", "        v2[nz, :] = 0.0\n", "zero rows at the kept DOF"),
+    ("C06", "neutral", [], "pyyeti/cb.py", "        psi = linalg.solve(-k[zz], k[zx])\n        k = k[xx] + k[xz] @ psi\n", "        psi = linalg.solve(k[zz], k[zx])\n        k = k[xx] - k[xz] @ psi\n        psi = -psi\n", "other sign convention, consistently"),
     # ---- C20
     ("C20", "break", ["C20-R5"], "pyyeti/stats.py", "            if _func(a, 1 - c, r - 1, 1 - p) >= 0:\n                # `r` samples (the fewest possible) already meet the confidence\n                return a\n", "", "revert F16"),
     ("C20", "break", ["C20-R1"], "pyyeti/stats.py", "    return nct.ppf(c, n - 1, pnonc) / sn", "    return nct.ppf(c, n, pnonc) / sn", "degrees of freedom"),
